@@ -47,6 +47,8 @@ def job_find(spec):
 
     def auth_of(r):
         from rnapolis.common import ResidueAuth as RA
+        if ident == "desc":       # residues listed in descending order of their numbers (file order != sorted order)
+            return RA("A", 9 - r, None, "G")
         return RA("A", r + 1, None, "G") if ident == "num" else RA("A", 10, [None, "A", "B"][r], "G")
     reduced = natoms >= 3     # 3 atoms: only ignore_occupancy / ignore_autoclashes / molprobity symbolic, occupancies present, all nucleotides
     sys.path.insert(0, "/verif")
@@ -111,6 +113,18 @@ def job_find(spec):
         ign_occ, ign_auto, na_only, same_name, molp = o
         listed = {}
         for (ri, ai), (rj, aj), so in result:
+            if not any(a is ai for a in ri.atoms) or not any(a is aj for a in rj.atoms):
+                v, m, dt = eng.prove(path, z3.BoolVal(True))
+                w = None
+                if m is not None:
+                    def val0(e):
+                        r = m.eval(e, model_completion=True)
+                        return float(r.as_fraction()) if z3.is_rational_value(r) else float(r.approx(12).as_fraction())
+                    w = {"names": names, "layout": layout, "opts": o, "axis": axis, "ident": ident, "gaps": [val0(g.e) for g in gaps], "kind": "identity",
+                         "occ": [None if oc is None else val0(oc.e) for oc in occs], "isnuc": [bool(residues[r].__dict__["is_nucleotide"]) for r in range(nres)],
+                         "pair": [0, 1], "listed": True}
+                stats["verdicts"].append({"ob": f"a listed clash names atom {ai.name} with residue {ri.auth} / atom {aj.name} with residue {rj.auth}, which is not the atom's residue",
+                                          "v": v, "key": "find_clashes:identity", "w": w})
             k = tuple(sorted((ats.index(ai), ats.index(aj))))
             listed[k] = listed.get(k, 0) + 1
         if listed:
@@ -175,7 +189,9 @@ from rnapolis.tertiary import Atom, Residue3D
 from rnapolis.common import ResidueAuth
 w = {w!r}
 names, layout, gaps = w["names"], w["layout"], w["gaps"]
-def auth_of(r): return ResidueAuth("A", r + 1, None, "G") if w.get("ident", "num") == "num" else ResidueAuth("A", 10, [None, "A", "B"][r], "G")
+def auth_of(r):
+    if w.get("ident") == "desc": return ResidueAuth("A", 9 - r, None, "G")
+    return ResidueAuth("A", r + 1, None, "G") if w.get("ident", "num") == "num" else ResidueAuth("A", 10, [None, "A", "B"][r], "G")
 pos = [0.0]
 for g in gaps: pos.append(pos[-1] + g)
 nres = max(layout) + 1
@@ -190,6 +206,10 @@ for r in range(nres):
     res.__dict__["is_nucleotide"] = w["isnuc"][r]
     residues.append(res)
 out = find_clashes(residues, *w["opts"])
+if w.get("kind") == "identity":
+    bad = [(str(ri.auth), ai.name, str(rj.auth), aj.name) for (ri, ai), (rj, aj), so in out if not any(a is ai for a in ri.atoms) or not any(a is aj for a in rj.atoms)]
+    print("clashes whose atom is listed with a residue it does not belong to:", bad)
+    sys.exit(1 if bad else 0)
 i, j = w["pair"]
 n = sum(1 for (ri, ai), (rj, aj), so in out if {{ats.index(ai), ats.index(aj)}} == {{i, j}})
 print("pair", names[i], names[j], "distance", pos[j] - pos[i], "listed", n, "times; model said listed =", w["listed"])
@@ -470,6 +490,8 @@ def run(rep, tier):
     specs.append(("find", (2, (0, 1), ("P", "P"), 0)))
     specs.append(("find", (2, (0, 1), ("O3'", "P"), 1, "icode")))
     specs.append(("find", (3, (0, 1, 1), ("OP1", "P", "OP1"), 0, "icode")))
+    specs.append(("find", (2, (0, 1), ("O3'", "P"), 1, "desc")))
+    specs.append(("find", (3, (0, 1, 1), ("OP1", "P", "OP1"), 0, "desc")))
     specs.append(("find", (2, (0, 1), ("C5", "O2'"), 1)))
     tri = [(("P", "OP1", "OP1"), (0, 0, 1)), (("C4'", "N1", "C5"), (0, 1, 1)), (("H5'", "P", "OP1"), (0, 0, 1)), (("MG", "O2'", "N1"), (0, 1, 1))]
     if tier != "quick":
